@@ -1,6 +1,6 @@
 """C11 — evolution strategies: theorems (Props/C11.lean) about strategy-parameter formulas regenerated from the C++
 (translate/cma_params.py -> Gen/CMAParams.lean) and about the models Model/CMA.lean, Model/ES.lean; correspondence K-C11 between
-the models (driver drv_c11) and the real CMA, ElitistCMA, CMSA, CrossEntropyMethod, SimplexDownhill; independent per-step oracle
+the models (driver drv_c11) and the real CMA, ElitistCMA, CMSA, VD-CMA, CrossEntropyMethod, SimplexDownhill; independent per-step oracle
 on CMA, CMSA, ElitistCMA, VD-CMA, CrossEntropyMethod and SimplexDownhill (9 runs per case incl. a re-initialised used object and an
 object used on another problem before), over the cross product of the configuration axes of every class' public interface (global / private
 generator, every init overload, setters before / after init / in the middle of a run)."""
@@ -28,12 +28,12 @@ MANIFEST = dict(
         "(4) ElitistCMA::step with CMAChromosome::updateAsOffspring/updateAsParent: ecma_sigma_pos, ecma_pSucc_unit, ecma_elitist_monotone (real three-way success rule with the history of accepted values: the reported value never increases "
         "and the point changes only with it), active_update_admissible (the shortened unlearning rate keeps (1+r)-r|z|^2>0 for every z), ecma_factor_valid. "
         "(5) remora's Cholesky rank-one update (CMSA, ElitistCMA): cholUpdate_diag_pos / cholUpdate_valid (whenever the update returns, the factor has a positive diagonal again, for every alpha>0, any beta, any v), cmsa_factor_valid, cmsa_sigma_pos, cmsa_step_rank_invariant (selection on phi o f picks the same offspring; the update never reads the fitness). "
-        "(6) cem_variance_nonneg; SimplexDownhill: simplex_best_monotone(_run), simplex_value_is_f, simplexInit_honest + simplex_value_is_f_run (value consistency of whole runs from init, every objective; init as repaired for F16, the pinned init is simplexInitMagic with an agreement theorem and a witness of its failure). "
+        "(5b) VD-CMA (Model/ES.lean vdUpdate = VDCMA::updateStrategyParameters with computeSAndTFirst/Second, constants from the regenerated formulas): vd_sigma_pos, vd_step_rank_invariant (selection on phi o f picks the same offspring, the update never reads the fitness). " "(6) cem_variance_nonneg; SimplexDownhill: simplex_best_monotone(_run), simplex_value_is_f, simplexInit_honest + simplex_value_is_f_run (value consistency of whole runs from init, every objective; init as repaired for F16, the pinned init is simplexInitMagic with an agreement theorem and a witness of its failure). "
         "(7) Configuration axes, universally quantified: ecmaInit_invariant + ecma_elitist_monotone_run / _prefix (whole ElitistCMA runs from init, any number of steps, BOTH settings of activeUpdate(): the reported value never gets worse), "
         "ecma_accepted_monotone (with penalties, i.e. a feasibility box: the accepted penalized fitness never increases), ecma_step_rank_invariant / ecma_rank_invariance (whole ElitistCMA runs on phi o f with the same samples visit the same points with the same step sizes and factors, every order-preserving phi, both activeUpdate settings; classify_relabel: the three-way success rule only compares), clamp_pos_any / sigma_pos_any_bound (sigma_pos for EVERY CMA::setLowerBound value, zero and negative included), "
         "cemNoise_nonneg / cem_variance_nonneg_any_noise (every CrossEntropyMethod::setNoiseType configuration, every generation). "
         "Tie, on every run: all strategy constants of CMA/CMSA/VD-CMA/ElitistCMA/LM-CMA objects initialised through their public interface are compared bit for bit with the Float instance of the regenerated formulas; "
-        "CMA::updatePopulation, ElitistCMA::step, CMSA::updatePopulation and CrossEntropyMethod's update are re-computed step by step by the models from the real run's own state and samples (one-step refinement; ECMA/CMSA/CEM bit-identical, CMA bit-identical or 1e-9 behind BLAS/eigensolver); "
+        "CMA::updatePopulation, ElitistCMA::step, CMSA::updatePopulation, VDCMA::updateStrategyParameters and CrossEntropyMethod's update are re-computed step by step by the models from the real run's own state and samples (one-step refinement; ECMA/CMSA/CEM bit-identical, CMA and VD-CMA bit-identical or 1e-9 behind BLAS/eigensolver/remora kernels); "
         "whole SimplexDownhill runs are re-computed from the starting point (objective evaluated in Lean) and compared bit for bit. "
         "Independent oracle on the real CMA (all recombination types, user-set lambda from 2 to 200 incl. lambda >> n), CMSA, ElitistCMA, VD-CMA, CrossEntropyMethod (user-set population / selection / variance), SimplexDownhill, n from 1 to 60, after init and after every step: "
         "sigma>0 finite; covariance symmetric + own Cholesky (CMA) / valid Cholesky factor (CMSA, ElitistCMA) / D finite non-zero, v finite, |v|>0 (VD-CMA) / variance finite >=0 (CEM); mean and paths finite; weights positive, non-increasing, sum 1; learning rates in range; "
@@ -48,8 +48,7 @@ MANIFEST = dict(
         "Every optimizer object is constructed in storage pre-filled with a byte pattern that differs between the runs of a case, so a member that neither constructor nor init sets has different garbage in the two fresh runs (uninitialised-member slips show as same-seed-different-run or a UBSan report). " "Determinism with a private generator is tested with random::globalRng in a DIFFERENT state in each of the 9 runs (a draw from the wrong generator changes the run), with the global generator it is seeded identically. "
         "The model traces cover the same axes where they change the update: activeUpdate on/off and a feasibility box (Ecma model), lower bound (carried in the trace header) and initial covariance (CMA model), initial covariance (CMSA), noise type / variance vector / resized population (CEM; cemNoise in Model/ES.lean), every init overload (simplex); "
         "the strategy constants are compared with the regenerated formulas under every construction mode / init overload / setter combination."),
-  note=TRUST + "not modelled (inputs of the models): the random variates and the eigendecomposition of MultiVariateNormalDistribution::update; VD-CMA's updateStrategyParameters has no Lean model (constants regenerated and compared, update covered by the oracle only; "
-       "generic_rank_invariance applies to any update function but VD-CMA's is not tied); cov_update_psd is stated on Mathlib matrices, the list-based covUpdate of the executable model is the same formula but the two are not formally connected; "
+  note=TRUST + "not modelled (inputs of the models): the random variates and the eigendecomposition of MultiVariateNormalDistribution::update; VD-CMA: the model vdUpdate is tied by one-step refinement (mostly within the 1e-9 tolerance, the inner products and norms go through remora's kernels), but that D stays free of zeros and v finite (validity of D(I+vv^T)D) is oracle-only; cov_update_psd is stated on Mathlib matrices, the list-based covUpdate of the executable model is the same formula but the two are not formally connected; "
        "cholUpdate_diag_pos proves validity of the returned factor, not that L'L'^T equals alpha*LL^T+beta*vv^T; simplex rank invariance and CEM/simplex convergence are oracle-only; the noise-handling branch of CMA::step (function.isNoisy()) is outside the property (deterministic objective); "
        "ElitistSelection uses std::sort (unstable beyond 16 elements): generations with tied fitness among more than 16 offspring are counted, not compared; convergence on the sphere is numerical (value <= 1e-10 within the budget; CEM: 1e-6 and dimension 1 only, because the noise-free cross-entropy method with 10 of 100 parents converges prematurely in higher dimension: n=5, seed 862289 stalls at 3.6e-3; n=2, seed 680299 from (3, 2.5) stalls at 1.1e-2, about 1 run in 400). "
        "That a run with a private generator does not depend on random::globalRng, and the equivalence of per-run state after init of a used object, have no model-level content (the models take the variates as inputs) and are decided by the oracle on the real code only. "
@@ -60,7 +59,7 @@ MANIFEST = dict(
   design="§6 C11, §14")
 FINISH = dict(level="proof",
               rule="coefficient cases: (class, n, lambda, mu, recombination) incl. the defaults; run cases: objective (sphere | integer strictly convex quadratic | Rosenbrock | plateau | constant, optional soft box) x optimizer x population class x initial step size x x0 class x seed x steps, "
-                   "each executed 9 times inside the harness (2x fresh, re-initialised used object, object used on another problem before, 4 rescalings); configuration cells: the cross product of the construction / init / setter axes of each class (gen_axis_cases), one run case per cell; trace cases: CMA / ElitistCMA / CMSA / CEM steps re-computed by the models, whole simplex runs; non-trivial = at least 5 steps")
+                   "each executed 9 times inside the harness (2x fresh, re-initialised used object, object used on another problem before, 4 rescalings); configuration cells: the cross product of the construction / init / setter axes of each class (gen_axis_cases), one run case per cell; trace cases: CMA / ElitistCMA / CMSA / VD-CMA / CEM steps re-computed by the models, whole simplex runs; non-trivial = at least 5 steps")
 
 
 def fb(x):
